@@ -123,6 +123,10 @@ def register(R):
                 len(q) == 1 and len(r) == 1 and q[0].extra.get('raised') is None and r[0].extra.get('raised') is None
                 and index_of(tr, q[0]) < index_of(tr, r[0]) < index_of(tr, s) for s in sub)),
             'submit_at_most_once': B(len(sub) <= 1),
+            # the submission body runs exactly once unless a step before it failed (else nothing would ever finish the transfer)
+            'transfer_is_submitted_unless_an_earlier_step_failed': (B(
+                len(sub) == 1 or (len(failed) == 1 and not sub)), ['C04', 'C03', 'C08']),
+            'submit_gets_the_transfer_future': (B(all(s.extra['env'].get('transfer_future') is c.a_transfer_future for s in sub)), ['C03', 'C08']),
         }
         return out
 
